@@ -166,7 +166,7 @@ def ops : List Op := [
         let bundle : Option Bundle :=
           if mode == "nobundle" then none
           else if mode == "missing" then some ⟨fun _ => none, selOf selk⟩
-          else some ⟨fun _ => some (newMessage var strs), selOf selk⟩
+          else some (poBundle 0 var strs (selOf selk))
         optOut (evalMsg ρ ν bundle 0 R)
       | _, _, _, _, _, _ => "BADREQ"
     | _ => "BADREQ"),
